@@ -2,6 +2,7 @@ package store
 
 import (
 	"context"
+	"errors"
 	"fmt"
 	"io"
 
@@ -33,8 +34,31 @@ func (u *UseCase) Get(ctx context.Context, key string) (io.ReadCloser, error) {
 	if err != nil {
 		return nil, fmt.Errorf("file repository get: %w", err)
 	}
-	vhook.AtID("store.get.lookup", f.ContentId)
 
+	for {
+		vhook.AtID("store.get.lookup", f.ContentId)
+
+		content, err := u.getContent(ctx, f)
+		if err == nil {
+			return content, nil
+		}
+		if !errors.Is(err, fs_db.ErrNotFound) {
+			return nil, err
+		}
+
+		// The content is gone: either the version is a tombstone, or it was
+		// superseded and cleaned up between the lookup and the open.
+		// Only in the second case the lookup now yields another version.
+		next, nErr := u.fRepo.Get(ctx, tx.Id, key, filter)
+		if nErr != nil || next.ContentId == f.ContentId {
+			return nil, err
+		}
+
+		f = next
+	}
+}
+
+func (u *UseCase) getContent(ctx context.Context, f model.File) (io.ReadCloser, error) {
 	cf, err := u.cfRepo.Get(ctx, f.ContentId)
 	if err != nil {
 		return nil, fmt.Errorf("content file repository get: %w", err)
